@@ -476,7 +476,7 @@ func ruleLoadAfterLink(c *Ctx) []Obligation {
 		return []Obligation{undecided(R, con, "-", "Read not found")}
 	}
 	var obs []Obligation
-	for _, name := range []string{"yang.(*Modules).resolveIdentities", "yang.(*typeDictionary).resolveTypedefs", "yang.ToEntry"} {
+	for _, name := range []string{"yang.(*Modules).resolveIdentities", "yang.(*typeDictionary).resolveTypedefs", "yang.ToEntry", "yang.(*Entry).Augment"} {
 		fn := c.Fn(name)
 		con := fmt.Sprintf("%s: reads no files (every module it needs was loaded while linking)", name)
 		if fn == nil {
@@ -564,7 +564,46 @@ func ruleParseStack(c *Ctx) []Obligation {
 	case bounded:
 		return []Obligation{ok(R, con, c.InstrPos(rec), "the recursive call is under a depth comparison")}
 	}
-	return []Obligation{bad(R, con, c.InstrPos(rec), "one stack frame per open block and no limit: a well-formed text of a few million nested blocks (a{a{a{…}}}, 18 MB) exceeds the runtime's 1 GB stack limit and the process is aborted (fatal error: stack overflow, not recoverable) — Parse returns neither statements nor an error")}
+	obs := []Obligation{bad(R, con, c.InstrPos(rec), "one stack frame per open block and no limit: a well-formed text of a few million nested blocks (a{a{a{…}}}, 18 MB) exceeds the runtime's 1 GB stack limit and the process is aborted (fatal error: stack overflow, not recoverable) — Parse returns neither statements nor an error")}
+	return append(obs, buildStack(c)...)
+}
+
+// buildStack: the same question for the AST builder, which recurses once per nesting level through the closures of
+// the type table (hunt/h2/C03/finding1).
+func buildStack(c *Ctx) []Obligation {
+	const R = "PARSE.STACK"
+	fn := c.Fn("yang.build")
+	con := "yang.build: the recursion on nested statements is bounded"
+	if fn == nil {
+		return []Obligation{undecided(R, con, "-", "build not found")}
+	}
+	// a cycle through build in the call graph
+	cyc := ""
+	eachInstr(fn, func(in ssa.Instruction) {
+		ci, okc := in.(ssa.CallInstruction)
+		if !okc || cyc != "" {
+			return
+		}
+		for _, cal := range c.Callees(ci) {
+			if !c.isRepoFn(cal) {
+				continue
+			}
+			if cal == fn {
+				cyc = c.FnName(fn) + " → " + c.FnName(fn)
+			} else if p := c.PathTo(cal, fn); p != "" {
+				cyc = c.FnName(fn) + " → " + p
+			}
+		}
+	})
+	if cyc == "" {
+		return []Obligation{ok(R, con, c.Pos(fn.Pos()), "build is not recursive")}
+	}
+	for _, p := range fn.Params {
+		if isIntType(p.Type()) {
+			return []Obligation{ok(R, con, c.Pos(fn.Pos()), "build carries an integer (depth) parameter")}
+		}
+	}
+	return []Obligation{bad(R, con, c.Pos(fn.Pos()), "one group of stack frames per nesting level and no limit ("+cyc+"): a valid module with 800 000 nested containers (9.6 MB), which Parse returns without trouble, aborts Modules.Parse with an unrecoverable stack overflow — the caller gets neither an error nor nodes")}
 }
 
 // ---------------------------------------------------------------- DEV.BOUNDPRESENCE
